@@ -75,10 +75,13 @@ def mk_requests(ck, sources, exp=None):
 def default_sizes(tier):
     # `rec`: (mutually) recursive functions returning comparisons / arithmetic of call results with
     # literals of other types (return-type inference must terminate); kept last so that a checker
-    # that hangs on them does not leave the other streams unrun
+    # that hangs on them does not leave the other streams unrun.
+    # `ret`: static result types of functions (fix D-09b) — a `return` naming a variable / calling a function
+    # that the function, its defining block, or only the enclosing code binds; the result used in a typed
+    # position; the expectation (`exp=ok` / `exp=<rule>@ret:use`) comes from the documented rule alone
     if tier == "quick":
-        return {"valid": 1500, "viol": 2500, "mixed": 1500, "rec": 400}
-    return {"valid": 40000, "viol": 60000, "mixed": 40000, "rec": 10000}
+        return {"valid": 1500, "viol": 2500, "mixed": 1500, "ret": 1200, "rec": 400}
+    return {"valid": 40000, "viol": 60000, "mixed": 40000, "ret": 30000, "rec": 10000}
 
 
 def did_not_return(answer):
@@ -139,6 +142,8 @@ def resolve_streams(ck, tier, sizes=None, seed_shift=0):
             continue   # not run / no verdict (hang, abort): reported by the [C07] oracle line
         accepted = impl.startswith("diags=- ")
         wf_ok = m.startswith("wf=1")
+        # how many programs satisfy the explicit hypothesis of `c09_full_partial` (Spec.ReturnsTyped)
+        ck.count("returns_typed_hypothesis_holds" if m.endswith(" rt=1") else "returns_typed_hypothesis_fails")
         if exp_of(r) is None and not wf_ok and not accepted:
             agree += 1
             continue
